@@ -478,8 +478,11 @@ func (r *Recomposer) recomp(v any, rv reflect.Value) {
 		} else if len(rv.Type().Name()) == 0 { // anonymous types can not be registered by name
 			im = indexType(rv.Type())
 		} else {
-			c, _ = r.registerComposer(rv.Type(), nil)
-			im = c.indexes
+			if c, _ = r.registerComposer(rv.Type(), nil); c != nil && c.rtype == rv.Type() {
+				im = c.indexes
+			} else { // the name is taken by another type
+				im = indexType(rv.Type())
+			}
 		}
 		for k := range im {
 			sf := im[k]
